@@ -17,6 +17,7 @@ pub mod c19;
 pub mod c20;
 pub mod common;
 pub mod hist;
+pub mod prim;
 
 /// `with_property!(id, p => expr)`: bind `p` to the property object for `id`.
 #[macro_export]
